@@ -163,7 +163,7 @@ def compare_op(op, ra, rb, f32, rtol=None, circ_atol=None, multiset=True, scale=
         rt_ = rtol if rtol is not None else (2e-5 if f32 else 1e-9)
         return compare(ra, rb, rt_, atol=scale * (32.0 * rt_))
     if op.watershed and multiset:
-        return compare_parts(ra, rb, 1 if name == "ptm1" else (2 if name == "ptm2" else 0))
+        return compare_parts(ra, rb, 1 if name in ("ptm1", "hp01") else (2 if name == "ptm2" else 0))
     if name in CANCEL:
         return compare_cancel(ra, rb, f32, name)
     rtol = rtol if rtol is not None else (2e-5 if f32 else 1e-9)
